@@ -75,8 +75,8 @@ def determinism(argv):
     return 2 if bad else 0
 
 
-def sensitivity(argv):
-    mdir = os.path.join(common.VERIF, "selftest", "mutants")
+def sensitivity(argv, sub="mutants"):
+    mdir = os.path.join(common.VERIF, "selftest", sub)
     only = [a for a in argv if not a.startswith("-")]
     if subprocess.run(["git", "-C", common.REPO, "diff", "--quiet"]).returncode != 0:
         print("HARNESS-ERROR: /repo has uncommitted changes; refusing to apply mutants")
@@ -117,5 +117,8 @@ def main(cmd, argv):
         return determinism(argv)
     if cmd == "selftest-sensitivity":
         return sensitivity(argv)
+    if cmd == "selftest-regressions":
+        # each repaired defect put back (the reverse of its `fix:` commit): the owning check must report it again
+        return sensitivity(argv, "regressions")
     print("unknown selftest")
     return 2
